@@ -469,6 +469,11 @@ pub struct Report {
     pub required_counters: Vec<&'static str>,
 }
 
+/// Verdict lines stay one printable line whatever hostile text a witness quotes.
+fn one_line(s: &str) -> String {
+    s.chars().flat_map(|c| if c.is_control() { c.escape_default().collect::<Vec<_>>() } else { vec![c] }).take(600).collect()
+}
+
 /// Writes evidence, prints VIOLATION / KNOWN-FINDING lines, returns the exit code.
 pub fn finish(report: Report) -> i32 {
     let root = verif_root();
@@ -511,7 +516,7 @@ pub fn finish(report: Report) -> i32 {
                 "VIOLATION property={} replay={} -- {}",
                 report.property,
                 path.display(),
-                what
+                one_line(what)
             );
             printed += 1;
         }
@@ -527,7 +532,7 @@ pub fn finish(report: Report) -> i32 {
             let doc = json!({"property": report.property, "tier": report.tier.as_str(), "seed": report.seed,
                 "scenario": idx, "what": what, "finding_key": k, "witness": {"hits": n}});
             let _ = std::fs::write(&path, serde_json::to_string_pretty(&doc).unwrap());
-            println!("VIOLATION property={} replay={} -- {} [{} hits, key={}]", report.property, path.display(), what, n, k);
+            println!("VIOLATION property={} replay={} -- {} [{} hits, key={}]", report.property, path.display(), one_line(what), n, k);
         }
     }
     for (k, n) in &known_hits {
